@@ -232,9 +232,15 @@ func c12(c *core.Ctx) {
 		if len(lockCalls) == 0 {
 			c.Ob("C12.release", fname(recv)+"·chunksMu.Lock", c.P.Pos(recv.Pos()), false, "Receive no longer takes chunksMu around the chunk table")
 		}
+		isRealDelete := func(in ssa.Instruction) bool {
+			call, ok := in.(ssa.CallInstruction)
+			return ok && ssax.IsBuiltin(call, "delete") && loadedField(call.Common().Args[0]).f == chunks
+		}
+		// the delete itself, or a call of a private helper that performs it
+		deletes := liftedSites(recv, isRealDelete)
 		isDelete := func(in ssa.Instruction) bool {
-			for _, s := range ssax.ContainerSites(recv, chunks) {
-				if s.Kind == ssax.MapDelete && s.Instr == in {
+			for _, d := range deletes {
+				if d == in {
 					return true
 				}
 			}
@@ -254,22 +260,45 @@ func c12(c *core.Ctx) {
 			chunkV = result(call, 0)
 		}
 		n := 0
-		for _, b := range recv.Blocks {
-			for _, in := range b.Instrs {
-				call, ok := in.(*ssa.Call)
-				if !ok || !ssax.IsBuiltin(call, "append") {
-					continue
+		for _, g := range withHelpers(recv) {
+			for _, b := range g.Blocks {
+				for _, in := range b.Instrs {
+					call, ok := in.(*ssa.Call)
+					if !ok || !ssax.IsBuiltin(call, "append") {
+						continue
+					}
+					// first arg: lookup on chunks
+					first := ssax.Strip(call.Call.Args[0])
+					lk, ok := first.(*ssa.Lookup)
+					if !ok || loadedField(lk.X).f != chunks {
+						continue
+					}
+					n++
+					vals := appendedValues(call)
+					ok2 := len(vals) == 1 && denotes(vals[0], chunkV)
+					if !ok2 && len(vals) == 1 && g != recv {
+						// in a helper: the appended value is a parameter that every call in Receive binds to the chunk just read
+						if p, isP := ssax.Strip(vals[0]).(*ssa.Parameter); isP {
+							idx := -1
+							for i, q := range g.Params {
+								if q == p {
+									idx = i
+								}
+							}
+							all, any := true, false
+							for _, cs := range ssax.Calls(recv) {
+								if cs.Common().StaticCallee() == g && idx >= 0 && idx < len(cs.Common().Args) {
+									any = true
+									if !denotes(cs.Common().Args[idx], chunkV) {
+										all = false
+									}
+								}
+							}
+							ok2 = all && any
+						}
+					}
+					c.Ob("C12.append", fname(recv)+"·append(chunks[reqID], chunk)", pos(c, call), ok2, "buffered chunks first, the chunk just read last: "+boolStr(ok2))
 				}
-				// first arg: lookup on chunks
-				first := ssax.Strip(call.Call.Args[0])
-				lk, ok := first.(*ssa.Lookup)
-				if !ok || loadedField(lk.X).f != chunks {
-					continue
-				}
-				n++
-				vals := appendedValues(call)
-				ok2 := len(vals) == 1 && denotes(vals[0], chunkV)
-				c.Ob("C12.append", fname(recv)+"·append(chunks[reqID], chunk)", pos(c, call), ok2, "buffered chunks first, the chunk just read last: "+boolStr(ok2))
 			}
 		}
 		if n == 0 {
